@@ -473,22 +473,27 @@ def run_dataedit(case, ctx):
                         break
                     if exp is None:
                         break
-                inp = dict(d)
+                # the event data may be any MutableMapping (an earlier filter of the pipeline
+                # may have returned one): every other chain gets a UserDict
+                as_mapping = idx % 2 == 1
+                inp = collections.UserDict(d) if as_mapping else dict(d)
                 try:
                     got = flt(inp)
                     got_exc = None
                 except Exception as err:
                     got, got_exc = None, err
                 ctx.count('dataedit_chains')
+                if as_mapping:
+                    ctx.count('dataedit_chains_on_non_dict_mappings')
                 ok = True
                 if exp_exc is not None:
                     ok = type(got_exc) is type(exp_exc)
                 elif got_exc is not None:
                     ok = False
                 elif exp is None:
-                    ok = not got and not isinstance(got, dict)
+                    ok = not got and not isinstance(got, collections.abc.MutableMapping)
                 else:
-                    ok = isinstance(got, dict) and got == exp
+                    ok = isinstance(got, collections.abc.MutableMapping) and dict(got) == exp
                 if not ok and nviol < 5:
                     nviol += 1
                     first_bad = desc
@@ -667,8 +672,62 @@ def run_ifnotinit(ctx):
             ctx.case_done(case, True, {'case': case, 'sent': sent, 'received': recv})
 
 
+def run_ifnotinit_restored(ctx):
+    """
+    The control block got its value by restoring saved state in the first initialisation pass;
+    the filtered event is sent during the asynchronous phase, i.e. before the control block's
+    second pass: the block IS initialised, the event must be rejected.
+    """
+    import asyncio
+    import edzed
+    NotIfInit = getattr(edzed, 'NotIfInitialized', None) or getattr(edzed, 'IfNotIitialized')
+    for byname in (False, True):
+        hist = core.History()
+
+        class Dest(edzed.SBlock):
+            def init_regular(self):
+                self.set_output(0)
+
+            def _event(self, etype, data):
+                hist.log('recv', self.name, etype, dict(data))
+
+        class AsyncStarter(edzed.AddonAsync, edzed.SBlock):
+            async def init_async(self):
+                await asyncio.sleep(0.5)
+                late = self.circuit.findblock('late')
+                hist.log('sent', self.x_ev.send(self, n=1), late.is_initialized(), late.output)
+                self.set_output(0)
+
+        def build():
+            late = edzed.Input('late', persistent=True, initdef='default')
+            dinit = Dest('dinit')
+            ev = edzed.Event(dinit, 'i', efilter=NotIfInit('late' if byname else late))
+            AsyncStarter('starter', x_ev=ev, init_timeout=3)
+
+        async def drive(sim, _):
+            return True
+
+        out = harness.run_sim(build, drive, storage={"<Input 'late'>": 'saved',
+                                                     'edzed-stop-time': 0.0})
+        case = {'part': 'ifnotinit_restored', 'byname': byname}
+        sent = hist.kinds('sent')
+        recv = hist.kinds('recv')
+        ctx.count('ifnotinit_checks')
+        ok = (out.get('started') and len(sent) == 1 and sent[0][3] is False
+              and sent[0][4] is True and sent[0][5] == 'saved' and not recv)
+        if not ok:
+            ctx.violation(case, 'ifnotinitialized-restored-control-block',
+                          f"NotIfInitialized with a control block restored from saved state, "
+                          f"event sent during the asynchronous initialisation: sent={sent}, "
+                          f"received={recv}, started={out.get('started')}", history=hist.dump())
+        ctx.case_done(case, True, {'case': case, 'sent': sent, 'received': recv})
+
+
 def run_case(case, ctx):
     part = case['part']
+    if part == 'ifnotinit_restored':
+        run_ifnotinit_restored(ctx)
+        return
     if part == 'pipeline':
         run_pipeline_batch([case], ctx)
     elif part == 'edge':
@@ -681,6 +740,7 @@ def run_case(case, ctx):
         run_ctrl(case, ctx)
     else:
         run_ifnotinit(ctx)
+        run_ifnotinit_restored(ctx)
 
 
 def run_shard(ctx):
@@ -700,6 +760,7 @@ def run_shard(ctx):
         run_ctrl(case, ctx)
     if ctx.shard == 0:
         run_ifnotinit(ctx)
+        run_ifnotinit_restored(ctx)
     for case in dataedit_cases(ctx):
         run_dataedit(case, ctx)
     ctx.exhaustive = True
